@@ -17,7 +17,14 @@ def _pool():
     for n in list(lib.__dict__) + dir(lib) + list(vars(Tags)) + dir(type(Tags)) + dir(type):
         if isinstance(n, str) and n not in names:
             names.append(n)
-    for n in ["SHEEP", "WOLF", "sheep", "x", "", " ", "not an identifier", "a.b", "0", "None", "Tag1", "__foo__", "_private",
+    # names that are DIFFERENT strings but share their Unicode compatibility (NFKC) normal form - the form Python gives
+    # identifiers in source code - with a name above: full-width spellings of the library's public and instance names
+    def full_width(s_):
+        return "".join(chr(ord(c) + 0xFEE0) if 33 <= ord(c) <= 126 else c for c in s_)
+    for n in [n for n in names if n in lib.__dict__ or (n in dir(TagLibrary) and n not in dir(object))] + ["__class__", "__dict__", "fish"]:
+        if full_width(n) not in names:
+            names.append(full_width(n))
+    for n in ["\ufb01sh", "fish", "SHEEP", "WOLF", "sheep", "x", "", " ", "not an identifier", "a.b", "0", "None", "Tag1", "__foo__", "_private",
               "self", "tag_id", "tag_name", "{x}", "cell{0}", "set{", "}", "{}", "%s", "100%"]:
         if n not in names:
             names.append(n)
@@ -25,7 +32,7 @@ def _pool():
 
 
 POOL = _pool()
-ORDINARY = [i for i, n in enumerate(POOL) if n in ("SHEEP", "WOLF", "sheep", "x", "Tag1")]
+ORDINARY = [i for i, n in enumerate(POOL) if n in ("\ufb01sh", "SHEEP", "WOLF", "sheep", "x", "Tag1")]   # (the first is spelt with the ligature U+FB01)
 
 
 def _len(lib):
